@@ -6,6 +6,8 @@ mod c07;
 mod c09;
 mod c10;
 mod c11;
+mod c12;
+mod c13;
 mod common;
 
 use vmon::shard::Args;
@@ -23,6 +25,8 @@ fn main() {
         "c09" => c09::run(&a),
         "c10" => c10::run(&a),
         "c11" => c11::run(&a),
+        "c12" => c12::run(&a),
+        "c13" => c13::run(&a),
         other => {
             eprintln!("unknown sub-command {other}");
             std::process::exit(3);
